@@ -137,14 +137,14 @@ type ElemsNode struct {
 }
 
 type Reg struct {
-	Raw                                        []byte
-	Version                                    byte
-	Kind                                       int
+	Raw                                         []byte
+	Version                                     byte
+	Kind                                        int
 	Root, HasPointers, AnySize, HasInl, HasNext bool
-	ExtraOff, ExtraLen                         int
-	InlExtraOff, InlExtraLen                   int
-	Next                                       [16]byte
-	ContentOff                                 int
+	ExtraOff, ExtraLen                          int
+	InlExtraOff, InlExtraLen                    int
+	Next                                        [16]byte
+	ContentOff                                  int
 	// index slabs
 	ChildAddr [8]byte
 	Children  []ChildHdr
